@@ -430,6 +430,25 @@ func ExchangeCases(tier string, seed uint64) []ExCase {
 		})
 	}
 
+	// chunked origin replies with trailers: announced in Trailer, not announced, announced but not sent
+	for _, k := range []struct{ n, reply string }{
+		{"announced", "HTTP/1.1 200 OK\r\nTransfer-Encoding: chunked\r\nTrailer: X-T\r\n\r\n5\r\nhello\r\n0\r\nX-T: v\r\n\r\n"},
+		{"unannounced", "HTTP/1.1 200 OK\r\nTransfer-Encoding: chunked\r\n\r\n5\r\nhello\r\n0\r\nX-T: v\r\n\r\n"},
+		{"one-more-than-announced", "HTTP/1.1 200 OK\r\nTransfer-Encoding: chunked\r\nTrailer: X-T\r\n\r\n5\r\nhello\r\n0\r\nX-T: v\r\nX-U: w\r\n\r\n"},
+		{"announced-not-sent", "HTTP/1.1 200 OK\r\nTransfer-Encoding: chunked\r\nTrailer: X-T\r\n\r\n5\r\nhello\r\n0\r\n\r\n"},
+	} {
+		k := k
+		add("plain-ok-trailers-"+k.n, "plain-ok", func(e *Env) {
+			o := e.Peer(OriginReplying(k.reply, "keep"))
+			e.Start(nil)
+			c := e.Client()
+			ex := Ex{Val: Val{}, Method: "GET", UpStatus: 200}
+			co := e.Do(c, getReq("http://"+o.Addr+"/x"), false, &ex)
+			e.End(c, co)
+			e.O.Exs = []Ex{ex}
+		})
+	}
+
 	// 101 upgrade: tunnel, completion reported after the tunnel is torn down
 	add("upgrade-101", "upgrade", func(e *Env) {
 		o := e.Peer(func(c net.Conn, n int) {
@@ -807,6 +826,33 @@ func ExchangeCases(tier string, seed uint64) []ExCase {
 		e.End(c, co)
 		e.O.Exs = []Ex{ex}
 	}})
+	// CONNECT that asks the proxy to terminate TLS towards the target (X-Martian-Terminate-Tls: true) and the target's
+	// handshake fails: the connection to the target is already dialled and must be closed
+	// ("no-server-name": without InsecureSkipVerify the handshake fails before a byte is sent — martian's client TLS
+	// configuration for terminated tunnels carries no ServerName)
+	for _, k := range []string{"plaintext", "closes", "no-server-name"} {
+		k := k
+		cs = append(cs, ExCase{Name: "connect-terminate-tls-target-" + k, Leaf: "connect-err", Class: map[string]string{"plaintext": "tlsfail", "closes": "other", "no-server-name": "other"}[k], Run: func(e *Env) {
+			o := e.Peer(e.WatchedUpstream(func(c net.Conn, n int) {
+				if k == "plaintext" {
+					c.Write([]byte("HTTP/1.1 400 Bad Request\r\nContent-Length: 0\r\n\r\n"))
+				} else {
+					buf := make([]byte, 16)
+					c.SetReadDeadline(time.Now().Add(2 * time.Second))
+					c.Read(buf)
+					c.(*net.TCPConn).CloseWrite()
+				}
+			}))
+			e.Start(func(op *Options) { op.InsecureUpstream = k != "no-server-name" })
+			c := e.Client()
+			f := NoFeat()
+			f.RecordHdr = k == "plaintext" // "closes": EOF during the handshake, no typed TLS error
+			ex := Ex{Val: Val{Connect: true, Cn: 1}, Method: "CONNECT", Feat: f}
+			co := e.Do(c, connectReq(o.Addr, "X-Martian-Terminate-Tls: true"), false, &ex)
+			e.End(c, co)
+			e.O.Exs = []Ex{ex}
+		}})
+	}
 	// upstream proxy reached over TLS (https://): TLS failures towards the upstream proxy
 	cs = append(cs, ExCase{Name: "connect-https-upstream-speaks-plaintext", Leaf: "connect-err", Class: "tlsfail", Run: func(e *Env) {
 		up := e.Peer(func(c net.Conn, n int) {
